@@ -41,6 +41,8 @@ type HBlock struct {
 	Hght    uint64 `json:"height"`
 	Nonce   uint64 `json:"nonce"`
 	Invalid bool   `json:"invalid"`
+	// inner P-Chain context (a P-Chain height); nil = the block carries none.  Part of the bytes / id.
+	PCtx *uint64 `json:"pctx,omitempty"`
 
 	role  int // 0 input, 1 output, 2 accepted
 	id    ids.ID
@@ -61,7 +63,12 @@ func (b *HBlock) GetParent() ids.ID          { return b.PrntID }
 func (b *HBlock) GetTimestamp() int64        { return b.Tmstmp }
 func (b *HBlock) GetBytes() []byte           { return b.bytes }
 func (b *HBlock) GetHeight() uint64          { return b.Hght }
-func (b *HBlock) GetContext() *block.Context { return nil }
+func (b *HBlock) GetContext() *block.Context {
+	if b.PCtx == nil {
+		return nil
+	}
+	return &block.Context{PChainHeight: *b.PCtx}
+}
 func (b *HBlock) String() string             { return fmt.Sprintf("blk(%s h=%d)", b.id, b.Hght) }
 func (b *HBlock) as(role int) *HBlock {
 	c := *b
@@ -249,7 +256,7 @@ func (c *hchain) Initialize(ctx context.Context, in hsnow.ChainInput, _ *hvm) (h
 
 func (*hchain) SetConsensusIndex(*hsnow.ConsensusIndex[*HBlock, *HBlock, *HBlock]) {}
 
-func (c *hchain) BuildBlock(_ context.Context, _ *block.Context, parent *HBlock) (*HBlock, *HBlock, error) {
+func (c *hchain) BuildBlock(_ context.Context, bctx *block.Context, parent *HBlock) (*HBlock, *HBlock, error) {
 	if parent == nil {
 		c.w.log(ev{K: "buildnil"})
 		return nil, nil, errNilParent
@@ -258,7 +265,13 @@ func (c *hchain) BuildBlock(_ context.Context, _ *block.Context, parent *HBlock)
 	c.w.nonce++
 	nonce := c.w.nonce
 	c.w.mu.Unlock()
-	b := (&HBlock{PrntID: parent.id, Tmstmp: parent.Tmstmp + 1, Hght: parent.Hght + 1, Nonce: nonce}).seal()
+	nb := &HBlock{PrntID: parent.id, Tmstmp: parent.Tmstmp + 1, Hght: parent.Hght + 1, Nonce: nonce}
+	if bctx != nil {
+		// like chain.Builder: the built block embeds the context it was built with
+		h := bctx.PChainHeight
+		nb.PCtx = &h
+	}
+	b := nb.seal()
 	n := c.w.register(b)
 	c.w.log(ev{K: "build", P: c.w.numOf(parent, 1), B: n})
 	return b, b.as(1), nil
@@ -298,10 +311,58 @@ func (c *hchain) AcceptBlock(_ context.Context, parentAcc *HBlock, out *HBlock) 
 
 // ---------------------------------------------------------------------------------- ops / results
 
+// Ops "parseNewCtx" / "buildCtx" / "verifyCtx" are the P-Chain-context variants (C20 only): C is the
+// inner context of the new block / the context given to BuildBlockWithContext / VerifyWithContext
+// (nil = none / nil pointer).
 type opT struct {
 	K   string `json:"k"`
 	A   int    `json:"a,omitempty"`
 	Inv bool   `json:"inv,omitempty"`
+	C   *int   `json:"c,omitempty"`
+}
+
+// baseK: the context-free call an op corresponds to
+func (o opT) baseK() string {
+	switch o.K {
+	case "parseNewCtx":
+		return "parseNew"
+	case "buildCtx":
+		return "build"
+	case "verifyCtx":
+		return "verify"
+	}
+	return o.K
+}
+
+func optN(c *int) string {
+	if c == nil {
+		return "None"
+	}
+	return fmt.Sprintf("(Some %d)", *c)
+}
+
+func pctxOf(c *int) *block.Context {
+	if c == nil {
+		return nil
+	}
+	return &block.Context{PChainHeight: uint64(*c)}
+}
+
+// ccoq: the op as a term of type [cop] (C20 cases)
+func (o opT) ccoq() string {
+	switch o.K {
+	case "parseNewCtx":
+		return fmt.Sprintf("CParseNew %d %s %s", o.A, emit.Bool(o.Inv), optN(o.C))
+	case "buildCtx":
+		return fmt.Sprintf("CBuild %s", optN(o.C))
+	case "verifyCtx":
+		return fmt.Sprintf("CVerify %d %s", o.A, optN(o.C))
+	}
+	c := o.coq()
+	if strings.Contains(c, " ") {
+		return "COp (" + c + ")"
+	}
+	return "COp " + c
 }
 
 func (o opT) coq() string {
@@ -399,6 +460,8 @@ func errCode(err error) int {
 		return 7
 	case strings.Contains(s, "duplicate health checker"):
 		return 8
+	case strings.Contains(s, "mismatched P-Chain context"):
+		return 10
 	}
 	return 99
 }
@@ -536,16 +599,21 @@ func (n *node) exec(o opT) (obs obsT) {
 	ctx := n.ctx
 	var r resT
 	switch o.K {
-	case "parseNew":
+	case "parseNew", "parseNewCtx":
 		var b *HBlock
 		if o.A >= 0 && o.A < len(n.w.blocks) {
 			p := n.w.blocks[o.A]
 			n.w.nonce++
-			b = (&HBlock{PrntID: p.id, Tmstmp: p.Tmstmp + 1, Hght: p.Hght + 1, Nonce: n.w.nonce, Invalid: o.Inv}).seal()
+			b = &HBlock{PrntID: p.id, Tmstmp: p.Tmstmp + 1, Hght: p.Hght + 1, Nonce: n.w.nonce, Invalid: o.Inv}
 		} else {
 			n.w.nonce++
-			b = (&HBlock{PrntID: hashing.ComputeHash256Array([]byte(fmt.Sprintf("orphan%d", n.w.nonce))), Hght: 0, Nonce: n.w.nonce, Invalid: o.Inv}).seal()
+			b = &HBlock{PrntID: hashing.ComputeHash256Array([]byte(fmt.Sprintf("orphan%d", n.w.nonce))), Hght: 0, Nonce: n.w.nonce, Invalid: o.Inv}
 		}
+		if o.K == "parseNewCtx" && o.C != nil {
+			h := uint64(*o.C)
+			b.PCtx = &h
+		}
+		b = b.seal()
 		n.w.register(b)
 		blk, err := n.vm.ParseBlock(ctx, b.bytes)
 		if err != nil {
@@ -564,14 +632,20 @@ func (n *node) exec(o opT) (obs obsT) {
 		} else {
 			r = n.blkRes(blk, hasParse(n.w.cur))
 		}
-	case "build":
-		blk, err := n.vm.BuildBlock(ctx)
+	case "build", "buildCtx":
+		var blk *hblk
+		var err error
+		if o.K == "buildCtx" {
+			blk, err = n.vm.BuildBlockWithContext(ctx, pctxOf(o.C))
+		} else {
+			blk, err = n.vm.BuildBlock(ctx)
+		}
 		if err != nil {
 			r = errRes(err)
 		} else {
 			r = n.blkRes(blk, true)
 		}
-	case "verify", "accept", "reject":
+	case "verify", "verifyCtx", "accept", "reject":
 		if o.A < 0 || o.A >= len(n.objs) {
 			r = resT{K: "err", Code: 9, Unres: -1}
 			break
@@ -581,6 +655,8 @@ func (n *node) exec(o opT) (obs obsT) {
 		switch o.K {
 		case "verify":
 			err = blk.Verify(ctx)
+		case "verifyCtx":
+			err = blk.VerifyWithContext(ctx, pctxOf(o.C))
 		case "accept":
 			wasReady := n.isReady()
 			err = blk.Accept(ctx)
@@ -806,12 +882,15 @@ type engine struct {
 	midReject bool
 	finishErr int
 	stats    map[string]int
+	useCtx   bool   // C20: blocks may carry a P-Chain context, verify / build may be given one
+	ictx     []*int // by block number: inner context
+	ctxSig   string // first observed misbehaviour around a context check (for the case signature)
 }
 
 func newEngine(r *rand.Rand, n *node, cfg cfgT) *engine {
 	return &engine{r: r, n: n, cfg: cfg, parent: []int{0}, height: []uint64{0}, invalid: []bool{false},
 		hid: map[int]int{0: 0}, built: map[int]bool{}, proc: map[int]int{}, chain: []int{0}, rejected: map[int]bool{},
-		ready: cfg.Ready, stats: map[string]int{}}
+		ready: cfg.Ready, stats: map[string]int{}, ictx: []*int{nil}}
 }
 
 func (e *engine) do(o opT) obsT {
@@ -824,7 +903,10 @@ func (e *engine) do(o opT) obsT {
 	}
 	e.ops = append(e.ops, o)
 	e.obs = append(e.obs, ob)
-	e.stats[o.K]++
+	e.stats[o.baseK()]++
+	if o.K != o.baseK() {
+		e.stats[o.K]++
+	}
 	r := ob.R
 	learn := func() {
 		if r.K == "blk" && r.H >= 0 {
@@ -836,7 +918,7 @@ func (e *engine) do(o opT) obsT {
 			}
 		}
 	}
-	switch o.K {
+	switch o.baseK() {
 	case "parseNew":
 		p := o.A
 		var h uint64
@@ -846,6 +928,7 @@ func (e *engine) do(o opT) obsT {
 		e.parent = append(e.parent, p)
 		e.height = append(e.height, h)
 		e.invalid = append(e.invalid, o.Inv)
+		e.ictx = append(e.ictx, o.C)
 		learn()
 	case "parse":
 		learn()
@@ -859,10 +942,28 @@ func (e *engine) do(o opT) obsT {
 			e.parent = append(e.parent, p)
 			e.height = append(e.height, h)
 			e.invalid = append(e.invalid, false)
+			e.ictx = append(e.ictx, o.C)
 			e.hid[r.H] = r.B
 			e.built[r.H] = true
+			e.unver = append(e.unver, r.H) // a built block the engine has not issued yet
 		}
 	case "verify":
+		if b, ok := e.hid[o.A]; ok && e.ready && b >= 0 && b < len(e.ictx) {
+			// what the engine can see of a context check: a mismatching context must be refused
+			// without any callback or notification, a matching one must never be reported as mismatch
+			mism := !sameCtx(o.C, e.ictx[b])
+			switch {
+			case mism:
+				e.stats["ctxMismatch"]++
+				if e.ctxSig == "" && r.K == "unit" {
+					e.ctxSig = "verify-with-mismatching-context-succeeded"
+				} else if e.ctxSig == "" && len(ob.Ev) > 0 {
+					e.ctxSig = "callbacks-or-notifications-during-a-verify-refused-for-its-context"
+				}
+			case r.K == "err" && r.Code == 10 && e.ctxSig == "":
+				e.ctxSig = "matching-context-reported-as-mismatch"
+			}
+		}
 		if r.K == "unit" {
 			b := e.hid[o.A]
 			e.proc[b] = o.A
@@ -907,6 +1008,95 @@ func (e *engine) do(o opT) obsT {
 		}
 	}
 	return ob
+}
+
+func sameCtx(a, b *int) bool {
+	if a == nil || b == nil {
+		return a == nil && b == nil
+	}
+	return *a == *b
+}
+
+func ip(v int) *int { return &v }
+
+// pickCtx: a context from a small universe (collisions are the norm): none, or height 1..3
+func (e *engine) pickCtx() *int {
+	if e.r.Intn(5) < 2 {
+		return nil
+	}
+	return ip(1 + e.r.Intn(3))
+}
+
+// parseNewOp / buildOp: the op creating a new block, with an inner context when contexts are in use
+func (e *engine) parseNewOp(p int, inv bool) opT {
+	if e.useCtx && e.r.Intn(4) != 0 {
+		return opT{K: "parseNewCtx", A: p, Inv: inv, C: e.pickCtx()}
+	}
+	return opT{K: "parseNew", A: p, Inv: inv}
+}
+
+func (e *engine) buildOp() opT {
+	if e.useCtx && e.r.Intn(4) != 0 {
+		return opT{K: "buildCtx", C: e.pickCtx()}
+	}
+	return opT{K: "build"}
+}
+
+// verifyOp: a verify call on handle h whose context matches (or not) the block's inner context
+func (e *engine) verifyOp(h int, match bool) opT {
+	var inner *int
+	if b, ok := e.hid[h]; ok && b >= 0 && b < len(e.ictx) {
+		inner = e.ictx[b]
+	}
+	if match {
+		switch {
+		case inner != nil:
+			return opT{K: "verifyCtx", A: h, C: ip(*inner)}
+		case e.r.Intn(2) == 0:
+			return opT{K: "verifyCtx", A: h} // VerifyWithContext(nil)
+		default:
+			return opT{K: "verify", A: h}
+		}
+	}
+	if inner == nil {
+		return opT{K: "verifyCtx", A: h, C: ip(1 + e.r.Intn(3))}
+	}
+	switch e.r.Intn(3) {
+	case 0:
+		return opT{K: "verify", A: h} // Verify() on a block that carries a context
+	case 1:
+		return opT{K: "verifyCtx", A: h}
+	default:
+		return opT{K: "verifyCtx", A: h, C: ip(1 + (*inner+e.r.Intn(2))%3)} // a different height in 1..3
+	}
+}
+
+// verify: the engine issues / verifies the block behind handle h.  With contexts in use about a
+// third of the first attempts carry a mismatching context; the engine then retries with the right
+// one (possibly after a second wrong one), or gives up on the block for now (it stays verifiable:
+// "verify something parsed earlier" may come back to it, or a sibling gets accepted instead).
+func (e *engine) verify(h int) obsT {
+	if !e.useCtx {
+		return e.do(opT{K: "verify", A: h})
+	}
+	if e.r.Intn(100) < 32 {
+		ob := e.do(e.verifyOp(h, false))
+		if ob.R.K == "unit" {
+			return ob // (never on a correct VM while ready; during state sync contexts are ignored)
+		}
+		switch e.r.Intn(5) {
+		case 0:
+			return ob
+		case 1:
+			if ob2 := e.do(e.verifyOp(h, false)); ob2.R.K == "unit" {
+				return ob2
+			}
+		}
+		if e.r.Intn(4) == 0 {
+			e.lookups(1)
+		}
+	}
+	return e.do(e.verifyOp(h, true))
 }
 
 func (e *engine) procIDs() []int {
@@ -1081,11 +1271,11 @@ func (e *engine) action(allowBuild bool, invalidPct int) {
 		if !e.isProc(e.pref) && e.pref != e.last {
 			e.do(opT{K: "setPref", A: e.last}) // the engine always has a live preference
 		}
-		ob := e.do(opT{K: "build"})
+		ob := e.do(e.buildOp())
 		if ob.R.K == "blk" {
 			if e.r.Intn(8) != 0 {
-				e.do(opT{K: "verify", A: ob.R.H})
-				if e.r.Intn(4) != 0 {
+				e.verify(ob.R.H)
+				if e.r.Intn(4) != 0 && e.isProc(ob.R.B) {
 					e.do(opT{K: "setPref", A: ob.R.B})
 				}
 			}
@@ -1096,9 +1286,9 @@ func (e *engine) action(allowBuild bool, invalidPct int) {
 			p = e.pref // deepen the preferred branch
 		}
 		inv := e.r.Intn(100) < invalidPct
-		ob := e.do(opT{K: "parseNew", A: p, Inv: inv})
+		ob := e.do(e.parseNewOp(p, inv))
 		if ob.R.K == "blk" && ob.R.H >= 0 && e.r.Intn(6) != 0 {
-			v := e.do(opT{K: "verify", A: ob.R.H})
+			v := e.verify(ob.R.H)
 			if v.R.K == "unit" && e.r.Intn(2) == 0 {
 				e.do(opT{K: "setPref", A: ob.R.B})
 			}
@@ -1111,14 +1301,14 @@ func (e *engine) action(allowBuild bool, invalidPct int) {
 			}
 		}
 		if len(cand) > 0 {
-			e.do(opT{K: "verify", A: e.pick(cand)})
+			e.verify(e.pick(cand))
 		}
 	case c < 50: // re-parse a known block (processing, accepted, rejected, never verified)
 		e.do(opT{K: "parse", A: e.r.Intn(len(e.parent))})
 	case c < 53: // a block whose parent is unknown
-		e.do(opT{K: "parseNew", A: orphanParent})
+		e.do(e.parseNewOp(orphanParent, false))
 	case c < 56: // child of a rejected / unverified block: parse only (the engine cannot verify it)
-		e.do(opT{K: "parseNew", A: e.r.Intn(len(e.parent)), Inv: e.r.Intn(4) == 0})
+		e.do(e.parseNewOp(e.r.Intn(len(e.parent)), e.r.Intn(4) == 0))
 	case c < 72: // accept a child of the last accepted block
 		kids := e.childrenOf(e.last)
 		if len(kids) > 0 && e.canAccept() {
@@ -1220,6 +1410,8 @@ func genLifecycle(t *testing.T, r *rand.Rand, kind string, hd *holder) (*engine,
 		return nil, err
 	}
 	e := newEngine(r, n, cfg)
+	e.useCtx = strings.HasSuffix(kind, "+ctx")
+	kind = strings.TrimSuffix(kind, "+ctx")
 	hd.set(e)
 	steps := 40 + r.Intn(120)
 	if kind == "deep" {
@@ -1320,10 +1512,18 @@ func replayWalk(t *testing.T, wk walk, hd *holder) (*engine, error) {
 
 func coqList(items []string, ty string) string { return emit.List(ty, items) }
 
-func (e *engine) emit(kind string, builtClause bool) emit.Case {
+func (e *engine) emit(kind string, builtClause bool, ctxOps bool) emit.Case {
 	ops := make([]string, len(e.ops))
 	for i, o := range e.ops {
-		ops[i] = o.coq()
+		if ctxOps {
+			ops[i] = o.ccoq()
+		} else {
+			ops[i] = o.coq()
+		}
+	}
+	opTy := "op"
+	if ctxOps {
+		opTy = "cop"
 	}
 	obs := make([]string, len(e.obs))
 	for i, ob := range e.obs {
@@ -1340,8 +1540,11 @@ func (e *engine) emit(kind string, builtClause bool) emit.Case {
 	coq := emit.App("mk",
 		fmt.Sprintf("(mkCfg %d %d %s)", e.cfg.W, e.cfg.P, emit.Bool(e.cfg.Ready)),
 		fmt.Sprintf("%d", e.cfg.Q), coqList(initEvs, "event"),
-		coqList(ops, "op"), coqList(obs, "res * list event"), emit.Bool(builtClause))
+		coqList(ops, opTy), coqList(obs, "res * list event"), emit.Bool(builtClause))
 	sig := "lifecycle-or-lookup-violated"
+	if e.ctxSig != "" {
+		sig = e.ctxSig
+	}
 	if strings.HasPrefix(kind, "sync") {
 		sig = "handover-violated"
 		if e.midReject && e.finishErr == 1 {
@@ -1396,14 +1599,14 @@ func TestDriver(t *testing.T) {
 		}
 		e.n.close()
 		if env.Prop == "C21" {
-			_ = w.Put(e.emit(kind, false))
+			_ = w.Put(e.emit(kind, false, false))
 			return
 		}
 		if !builtOnly {
-			_ = w.Put(e.emit(kind, false))
+			_ = w.Put(e.emit(kind, false, true))
 		}
 		if e.builtVer && (builtOnly || w.Count()%5 == 0) {
-			_ = w.Put(e.emit(kind+"+built-clause", true))
+			_ = w.Put(e.emit(kind+"+built-clause", true, true))
 		}
 	}
 	if env.Mode == "replay" {
@@ -1429,7 +1632,8 @@ func TestDriver(t *testing.T) {
 		if env.Prop == "C21" {
 			kind = []string{"sync-mixed", "sync-mixed", "sync-valid", "sync-mixed", "sync-mixed", "sync-valid", "sync-midreject"}[i%7]
 		} else {
-			kind = []string{"mixed", "parse-only", "mixed", "deep"}[i%4]
+			// three walks in four use P-Chain contexts (inner contexts, VerifyWithContext, BuildBlockWithContext)
+			kind = []string{"mixed+ctx", "parse-only+ctx", "mixed", "deep+ctx", "mixed+ctx", "parse-only", "mixed+ctx", "deep"}[i%8]
 		}
 		k := kind
 		e := runWalk(t, func(hd *holder) (*engine, error) {
